@@ -79,6 +79,11 @@ def run(sid, props):
         print("cannot apply:", out)
         return 2
     res = {}
+    # evidence files describe the unchanged tree: what a run on a changed tree writes is put back afterwards
+    saved = {}
+    for p in props:
+        ep = os.path.join(ROOT, "evidence", f"{p}.json")
+        saved[ep] = open(ep).read() if os.path.exists(ep) else None
     try:
         for p in props:
             t = time.time()
@@ -88,6 +93,9 @@ def run(sid, props):
             print(sid, p, "exit", rc, lines[:3], f"{time.time() - t:.0f}s", flush=True)
     finally:
         sh("git checkout -q -- .", cwd="/repo")
+        for ep, txt in saved.items():
+            if txt is not None:
+                open(ep, "w").write(txt)
     pth = os.path.join(d, "detect.json")
     old = json.load(open(pth)) if os.path.exists(pth) else {}
     old.update(res)
